@@ -74,6 +74,7 @@ type FnCtx struct {
 	entryFrees map[*ssa.FreeVar]Val
 	useLines   bool // line-measure spec functions (mxl/fstl/lstl) are in play
 	cellsMode  bool // the cell model of ansi.expand is in play
+	provMode   bool // embedded JSON values inherit the provenance (servedBy) of their document
 }
 
 func (c *FnCtx) declare(name, decl string) {
@@ -545,6 +546,9 @@ func (s *State) loadAddr(a *Addr) Val {
 	if kindOf(t) == kSlice {
 		s.assume(sliceFacts(v))
 	}
+	if a.Space == "elem" && len(a.Path) == 0 {
+		s.provenanceFacts(a.Ref, v)
+	}
 	return v
 }
 
@@ -864,7 +868,39 @@ func (s *State) mapLookup(mt types.Type, ref, k string) (Val, string) {
 		s.refFacts(c, terms[i])
 	}
 	s.deepSliceFacts(v)
+	s.provenanceFacts(ref, v)
 	return v, ok
+}
+
+// provenanceFacts: a map or list found inside a decoded JSON document (as a map value or list element) was
+// served with that document: servedBy is inherited. An axiom about json.Decoder's output (documents are trees
+// that the repository never modifies -- closed-world scan "no map update") used only in `provenance` functions.
+func (s *State) provenanceFacts(parent string, v Val) {
+	for _, f := range s.provenanceTerms(parent, v) {
+		s.assume(f)
+	}
+}
+
+func (s *State) provenanceTerms(parent string, v Val) []string {
+	if !s.c.provMode || v.T == nil || kindOf(v.T) != kIface || v.S == "" {
+		return nil
+	}
+	it, ok := v.T.Underlying().(*types.Interface)
+	if !ok || it.NumMethods() != 0 {
+		return nil
+	}
+	uf, ok := s.c.eng.ufuncs["servedBy"]
+	if !ok {
+		return nil
+	}
+	anyT := types.NewInterfaceType(nil, nil)
+	mapT := types.NewMap(types.Typ[types.String], anyT)
+	listT := types.NewSlice(anyT)
+	s.c.assumed["JSON documents: a map or list embedded in a decoded document (map value, list element) carries the document's servedBy"] = true
+	return []string{
+		implies(s.hasType(v, mapT), eq(app(uf.Name, app("pref", app("ipay", v.S))), app(uf.Name, parent))),
+		implies(s.hasType(v, listT), eq(app(uf.Name, app("psb", app("ipay", v.S))), app(uf.Name, parent))),
+	}
 }
 
 func (s *State) mapUpdate(mt types.Type, ref, k string, v Val) {
